@@ -80,5 +80,8 @@ def average(x, y, n):
     ay = []
     for r in ry:
         v = [u for u in r if u == u]
-        ay.append(math.fsum(v) / len(v))
+        try:
+            ay.append(math.fsum(v) / len(v))
+        except ValueError:                  # +inf and -inf in one row: the mean is undefined
+            ay.append(float("nan"))
     return ax, ay
